@@ -599,3 +599,13 @@ Proof.
   apply andb_true_iff in H as [H H3]. apply andb_true_iff in H as [H1 H2].
   apply String.eqb_eq in H1. apply strs_eqb_eq in H2. rewrite H1, H2, (IH _ H3). reflexivity.
 Qed.
+
+(* ---------------------------------------------------------------- embedded XML: stored where it is read *)
+Theorem embed_ok_spec : forall stores reads, embed_ok stores reads = true ->
+    stores <> [] /\ forall w, In w stores -> In w reads.
+Proof.
+  intros stores reads H. destruct stores as [|x r]; [discriminate|]. split; [discriminate|].
+  intros w Hin. unfold embed_ok in H. rewrite forallb_forall in H. specialize (H _ Hin).
+  apply existsb_exists in H as [y [Hy He]]. unfold place_eqb in He. apply andb_true_iff in He as [H1 H2].
+  apply String.eqb_eq in H1. apply String.eqb_eq in H2. destruct w, y; simpl in *; subst; assumption.
+Qed.
